@@ -132,6 +132,10 @@ class Sym:
     def simplify(self, n):
         if isinstance(n, ast.Call) and isinstance(n.func, ast.Name) and n.func.id == "cast" and len(n.args) == 2:
             return n.args[1]
+        if isinstance(n, ast.Subscript) and isinstance(n.value, (ast.Tuple, ast.List)) and isinstance(n.slice, ast.Constant) \
+                and isinstance(n.slice.value, int) and -len(n.value.elts) <= n.slice.value < len(n.value.elts) \
+                and not any(isinstance(x, ast.Starred) for x in n.value.elts):
+            return n.value.elts[n.slice.value]  # (a, b)[0]
         if isinstance(n, (ast.Attribute, ast.Subscript)) and isinstance(n.value, ast.Call):
             ctor = A.call_attr(n.value)
             if ctor in self.tuples and not any(isinstance(a, ast.Starred) for a in n.value.args):
@@ -768,8 +772,12 @@ def check_run_record_replay(ck, R):
         it = A.isinstance_types(e)
         return it[0] if it and any(t.split(".")[-1] == "KeyOverrideResult" for t in it[1]) else None
 
+    def on_caught_exception(e):
+        it = A.isinstance_types(e)
+        return bool(it) and it[0].startswith("_exc")
+
     def watch(tx, e):
-        return kind(e, True) is not None or ko_subject(e) is not None or _is_call_to(e, "is_memoized")
+        return kind(e, True) is not None or ko_subject(e) is not None or _is_call_to(e, "is_memoized") or on_caught_exception(e)
 
     def cut_miss(d):
         return bool(d) and all(any(kind(e, p) == "miss" for (e, p) in c) for c in d)
@@ -824,10 +832,39 @@ def check_run_record_replay(ck, R):
                 okh = not (set(mn) & reach) and cfg.exit not in reach
                 ck.ob(R, rl.key(h, "never-recorded"), okh, "%s is re-raised and never memoized" % tn if okh else
                       "%s can reach memoize or a normal return: it is recorded / swallowed" % tn, rl.where(h))
-    names = [t for h in tr.handlers for t in caught(h)]
+    # an exception that must never be recorded either has no handler here at all (it propagates), or the first handler that
+    # catches it -- its own, or one written for a superclass -- lets it reach neither memoize nor a normal return: every such
+    # state has seen `isinstance(<the caught exception>, <that class>)` answer no
+    supers = {}
+    for (sub_, sup_) in repo_subclass_pairs(ck):
+        supers.setdefault(sub_, set()).add(sup_)
+
+    def catches(h, cls_name):
+        ts = [t.split(".")[-1] for t in caught(h)]
+        return h.type is None or cls_name in ts or any(t in supers.get(cls_name, ()) or t == "BaseException" for t in ts)
+
+    def ruled_out(cls_name, lits, tok):
+        for (tx, p) in lits:
+            if p or tx.startswith("@"):
+                continue
+            it = A.isinstance_types(_parse(tx))
+            if it and it[0] == tok and any(t.split(".")[-1] == cls_name or t.split(".")[-1] in supers.get(cls_name, ()) for t in it[1]):
+                return True
+        return False
+
     for need in ("NonMemoizedException", "RemoteCallException"):
-        ck.ob(R, rl.key(tr, "handler-" + need), need in names, "%s has its own handler" % need if need in names else
-              "no dedicated handler for %s: it is memoized like an ordinary exception" % need, rl.where(tr))
+        first = ([h for h in tr.handlers if catches(h, need)] or [None])[0]
+        okn, how, at_ = True, "%s propagates: no handler of the body call catches it" % need, tr
+        if first is not None:
+            mark, tok = S.handler_mark(first), S.exc_token(first)
+            leaks = [c for c in mem for (env, lits) in S.at(c) if mark in lits and not ruled_out(need, lits, tok)]
+            leaks += [r for (r, env, lits, v) in rets if mark in lits and not ruled_out(need, lits, tok)]
+            okn = not leaks
+            at_ = leaks[0] if leaks else first
+            own = need in [t.split(".")[-1] for t in caught(first)]
+            how = ("%s has its own handler" % need) if own else ("%s is sorted out of the handler for %s before anything is recorded" % (need, "/".join(caught(first)) or "everything"))
+        ck.ob(R, rl.key(tr, "handler-" + need), okn, how if okn else
+              "no dedicated handler for %s: it is memoized like an ordinary exception" % need, rl.where(at_ if not okn else tr))
     # (c) in every state in which memoize is called: what the store holds for <memento>.invocation_metadata.result_type
     # is from_object(<the value being memoized>), and <memento> is the frame's memento
     any_ko = False
@@ -893,8 +930,9 @@ def check_run_record_replay(ck, R):
     # memoize only if not already memoized: every state calling memoize has seen is_memoized(<this call>) answer no
     look_arg = None
     for c in lookup_calls:
-        if c.args and _is_call_to(c.args[0], "fn_reference_with_arg_hash") and A.call_recv(c.args[0]) is not None:
-            look_arg = rl.xnorm(A.call_recv(c.args[0]))
+        a0 = rl.expand(c.args[0]) if c.args and rl.nodes(c) else None
+        if a0 is not None and _is_call_to(a0, "fn_reference_with_arg_hash") and A.call_recv(a0) is not None:
+            look_arg = A.norm(A.call_recv(a0))
     oki = look_arg is not None
     for c in mem:
         for (env, lits) in S.at(c):
